@@ -5,6 +5,7 @@ import Driver.AlgDriver
 import Driver.NodeDriver
 import Driver.AirDriver
 import Driver.ReinitDriver
+import Driver.AirDkgDriver
 
 open Driver
 
@@ -70,6 +71,14 @@ partial def loopReinit (h : IO.FS.Stream) (out : IO.FS.Stream) : IO Unit := do
   out.putStrLn (reinitStep toks)
   loopReinit h out
 
+partial def loopAirDkg (h : IO.FS.Stream) (out : IO.FS.Stream) (st : AirDkgSt) : IO Unit := do
+  let line ← h.getLine
+  if line.isEmpty then return ()
+  let toks := (line.trimAscii.toString.splitOn " ").filter (· != "")
+  let (st', o) := airDkgStep st toks
+  out.putStrLn o
+  loopAirDkg h out st'
+
 def main (args : List String) : IO UInt32 := do
   let stdin ← IO.getStdin
   let stdout ← IO.getStdout
@@ -80,6 +89,7 @@ def main (args : List String) : IO UInt32 := do
   | ["reinit"] => loopReinit stdin stdout; pure 0
   | ["air"] => loopAir stdin stdout Dc4bcVerif.Model.Air.fresh; pure 0
   | ["alg"] => loopAlg stdin stdout {}; pure 0
+  | ["airdkg"] => loopAirDkg stdin stdout {}; pure 0
   | ["board"] => loopBoard stdin stdout []; pure 0
   | ["ssz"] => loopSsz stdin stdout ⟨Dc4bcVerif.Model.Tasks.bakedIndices.toArray⟩; pure 0
   | _ => IO.eprintln "usage: driver fsm|…"; pure 2
